@@ -289,6 +289,23 @@ def record(item):
                         rec["tables"][kind + tb] = "ctor:" + type(e).__name__ + ":" + str(e)[:200]
                         continue
                     if moddir:
+                        if kind == "GLR" and tb == "LALR":
+                            # a cached table damaged by an interrupted write: the table computed instead
+                            # (and cached again) is the same table
+                            pgc = os.path.join(moddir, "root.pgc")
+                            if os.path.exists(pgc):
+                                import time
+
+                                with open(pgc, "w") as fh:
+                                    fh.write('[{"acti')
+                                t = time.time() + 50
+                                os.utime(pgc, (t, t))
+                                with pgx.quiet():
+                                    import parglare
+
+                                    p2 = parglare.GLRParser(parglare.Grammar.from_file(os.path.join(moddir, "root.pg")), **kw)
+                                if json.dumps(table_to_serializable(p2.table), sort_keys=True) != json.dumps(table_to_serializable(p.table), sort_keys=True):
+                                    rec["damaged_cache_table_differs"] = True
                         # never let the table cache of one construction feed the next (KF-C12-1)
                         for fn in os.listdir(moddir):
                             if ".pgc" in fn:
@@ -334,6 +351,9 @@ def record(item):
     b = one()
     if a != b:
         a["repeat_differs"] = [k for k in a if a[k] != b[k]]
+    if a.pop("damaged_cache_table_differs", None):
+        a["repeat_differs"] = (a.get("repeat_differs") or []) + ["table computed after a damaged cache differs from the table computed without one"]
+    b.pop("damaged_cache_table_differs", None)
     return a
 
 
